@@ -4,7 +4,9 @@
   Proved here (over ℝ, on the model = the expression trees of detail/so3.hpp, se2.hpp, se3.hpp,
   galilei.hpp, derivatives_impl.hpp):
   * `dr_exp a · dr_expinv a = I` and `dr_expinv a · dr_exp a = I` in the closed-form branch
-    (`eps2 < θ²`, `sin θ ≠ 0`) for SO3, SE2, SE3 (SE3: block-triangular algebra, any `Q`);
+    (`eps2 < θ²`, `sin θ ≠ 0`) for SO3, SE2, SE3, SE_K(3) (every k), Galilei (block algebra, any
+    `Q`/`R`/`S2` blocks), and for every Bundle composition (`bundle_drExp_mul_drExpinv`, lifting by
+    induction over the list of parts; `bundle_dlExp_eq_Ad_drExp` likewise);
   * `dl_exp a = dr_exp (−a)` (definition of the LieGroupBase members) and, for SO3,
     `dr_exp (−a) = Ad (exp a) · dr_exp a` (Rodrigues algebra, closed branch);
   * `dr_action g v · d = point (M g · hat d · embed v)` for SO3, SE3, Galilei (all g, v, d);
@@ -24,6 +26,9 @@ import SmoothProofs.C04Action
 import SmoothProofs.C04Taylor
 import SmoothProofs.C04Ode
 import SmoothProofs.C04Series
+import SmoothProofs.C04SEK3
+import SmoothProofs.C04Galilei
+import SmoothProofs.C04Bundle
 import Mathlib.Analysis.Calculus.Deriv.Basic
 
 open Lin Scalar
@@ -97,6 +102,36 @@ example : mmul (SE3.dr_exp (SE3.mk6 (mk3 5 (-7) 11) (mk3 1 0 0)))
       ext i; fin_cases i <;> rfl
     rw [this]; exact so3Closed_e1)
 
+/-- SE_K(3), EVERY `k`: arrow block structure `J` on the diagonal, `Q_i` in the last block column;
+    inverse `J⁻¹`, `−J⁻¹Q_iJ⁻¹`. -/
+theorem sek3_drExp_mul_drExpinv (k : Nat) (a : Vec ℝ (3 + 3 * k)) (h : SO3Closed (SEK3.tw k a)) :
+    mmul (SEK3.dr_exp k a) (SEK3.dr_expinv k a) = ident (3 + 3 * k) :=
+  C04SEK3.drExp_mul_drExpinv a h.1 h.2
+
+theorem sek3_drExpinv_mul_drExp (k : Nat) (a : Vec ℝ (3 + 3 * k)) (h : SO3Closed (SEK3.tw k a)) :
+    mmul (SEK3.dr_expinv k a) (SEK3.dr_exp k a) = ident (3 + 3 * k) :=
+  C04SEK3.drExpinv_mul_drExp a h.1 h.2
+
+/-- non-vacuity: `k = 2`, `a = (v₁, v₂, ω) = (1,2,3, 4,5,6, 1,0,0)` -/
+example : SO3Closed (SEK3.tw 2 (SEK3.mkT 2 (fun i => if i = 0 then mk3 1 2 3 else mk3 4 5 6) (mk3 (1:ℝ) 0 0))) := by
+  rw [C03.SEK3.tw_mkT]; exact so3Closed_e1
+
+/-- Galilei (10×10, blocks `b q s ω`): `dr_exp·dr_expinv = I` needs only `S1·S1inv = I` of the rotational
+    part — it holds for ANY `S2`, `calculate_q`, `calculate_r` blocks. -/
+theorem galilei_drExp_mul_drExpinv (a : Vec ℝ 10) (h : SO3Closed (Galilei.tw a)) :
+    mmul (Galilei.dr_exp a) (Galilei.dr_expinv a) = ident 10 :=
+  C04Galilei.drExp_mul_drExpinv a h.1 h.2
+
+theorem galilei_drExpinv_mul_drExp (a : Vec ℝ 10) (h : SO3Closed (Galilei.tw a)) :
+    mmul (Galilei.dr_expinv a) (Galilei.dr_exp a) = ident 10 :=
+  C04Galilei.drExpinv_mul_drExp a h.1 h.2
+
+/-- non-vacuity: `a = (b, q, s, ω) = (1,2,3, 4,5,6, 7, 1,0,0)` -/
+example : SO3Closed (Galilei.tw (Galilei.mkT (mk3 1 2 3) (mk3 4 5 6) 7 (mk3 (1:ℝ) 0 0))) := by
+  have : Galilei.tw (Galilei.mkT (mk3 1 2 3) (mk3 4 5 6) 7 (mk3 (1:ℝ) 0 0)) = mk3 1 0 0 := by
+    ext i; fin_cases i <;> rfl
+  rw [this]; exact so3Closed_e1
+
 /-! ### left Jacobians -/
 
 /-- `dl_exp a = dr_exp (−a)`, `dl_expinv a = dr_expinv (−a)` for every group model (the
@@ -122,6 +157,86 @@ theorem so3_closed_forms (a : Vec ℝ 3) (h : Scalar.eps2 < sqNorm a) :
     SO3.Ad (SO3.exp a) = C04Alg.poly2 (SO3.hat a) (C04SO3.ρr (sqNorm a)) (C04SO3.σr (sqNorm a)) :=
   ⟨C04SO3.dr_exp_closed a h, C04SO3.dr_expinv_closed a (not_lt.2 h.le),
     C04SO3.matrix_exp_closed a h⟩
+
+/-! ### every Bundle composition -/
+
+/-- `P` holds for every part of `Bundle.bundle ps` at the corresponding segment of `a` (a nested
+    Bundle is a part `Bundle.bundle qs`, for which `P` follows again from its parts). -/
+abbrev AllParts := @C04Bundle.AllParts
+
+/-- both inverse relations at `a` -/
+abbrev InvAt : C04Bundle.PointProp := C04Bundle.InvAt
+/-- `dl_exp a = Ad (exp a) · dr_exp a` -/
+abbrev DlAt : C04Bundle.PointProp := C04Bundle.DlAt
+
+theorem allParts_nil (P : C04Bundle.PointProp) (a : Vec ℝ (Bundle.bundle ([] : List (LieModel ℝ))).dof) :
+    AllParts P [] a := trivial
+
+theorem allParts_cons (P : C04Bundle.PointProp) (p : LieModel ℝ) (ps : List (LieModel ℝ))
+    (a : Vec ℝ (Bundle.bundle (p :: ps)).dof) :
+    AllParts P (p :: ps) a ↔
+      (P p (Bundle.fst (n := p.dof) (m := (Bundle.bundle ps).dof) a) ∧
+        AllParts P ps (Bundle.snd (n := p.dof) (m := (Bundle.bundle ps).dof) a)) := Iff.rfl
+
+/-- Bundle: `dr_exp·dr_expinv = I = dr_expinv·dr_exp` for `Bundle.bundle ps`, any list of parts (any
+    order, repetition, nesting), as soon as it holds for the parts. -/
+theorem bundle_drExp_mul_drExpinv (ps : List (LieModel ℝ)) (a : Vec ℝ (Bundle.bundle ps).dof)
+    (h : AllParts InvAt ps a) :
+    mmul ((Bundle.bundle ps).dr_exp a) ((Bundle.bundle ps).dr_expinv a) = ident (Bundle.bundle ps).dof ∧
+    mmul ((Bundle.bundle ps).dr_expinv a) ((Bundle.bundle ps).dr_exp a) = ident (Bundle.bundle ps).dof :=
+  C04Bundle.invAt_bundle ps a h
+
+theorem prod_drExp_mul_drExpinv (A B : LieModel ℝ) (a : Vec ℝ (A.dof + B.dof))
+    (hA : InvAt A (Bundle.fst a)) (hB : InvAt B (Bundle.snd a)) : InvAt (Bundle.prod A B) a :=
+  C04Bundle.invAt_prod A B a hA hB
+
+/-- Bundle: `dl_exp a = Ad(exp a)·dr_exp a` lifts from the parts. -/
+theorem bundle_dlExp_eq_Ad_drExp (ps : List (LieModel ℝ)) (a : Vec ℝ (Bundle.bundle ps).dof)
+    (h : AllParts DlAt ps a) :
+    (Bundle.bundle ps).dl_exp a
+      = mmul ((Bundle.bundle ps).Ad ((Bundle.bundle ps).exp a)) ((Bundle.bundle ps).dr_exp a) :=
+  C04Bundle.dlAt_bundle ps a h
+
+theorem prod_dlExp_eq_Ad_drExp (A B : LieModel ℝ) (a : Vec ℝ (A.dof + B.dof))
+    (hA : DlAt A (Bundle.fst a)) (hB : DlAt B (Bundle.snd a)) : DlAt (Bundle.prod A B) a :=
+  C04Bundle.dlAt_prod A B a hA hB
+
+/-- the part facts that feed `AllParts`: the non-commutative groups in their closed branch … -/
+theorem so3_invAt (a : Vec ℝ 3) (h : SO3Closed a) : InvAt (SO3.model : LieModel ℝ) a :=
+  ⟨so3_drExp_mul_drExpinv a h, so3_drExpinv_mul_drExp a h⟩
+theorem se2_invAt (a : Vec ℝ 3) (h : SE2Closed a) : InvAt (SE2.model : LieModel ℝ) a :=
+  ⟨se2_drExp_mul_drExpinv a h, se2_drExpinv_mul_drExp a h⟩
+theorem se3_invAt (a : Vec ℝ 6) (h : SO3Closed (SE3.tw a)) : InvAt (SE3.model : LieModel ℝ) a :=
+  ⟨se3_drExp_mul_drExpinv a h, se3_drExpinv_mul_drExp a h⟩
+theorem galilei_invAt (a : Vec ℝ 10) (h : SO3Closed (Galilei.tw a)) :
+    InvAt (Galilei.model : LieModel ℝ) a :=
+  ⟨galilei_drExp_mul_drExpinv a h, galilei_drExpinv_mul_drExp a h⟩
+theorem sek3_invAt (k : Nat) (a : Vec ℝ (3 + 3 * k)) (h : SO3Closed (SEK3.tw k a)) :
+    InvAt (SEK3.model k : LieModel ℝ) a :=
+  ⟨sek3_drExp_mul_drExpinv k a h, sek3_drExpinv_mul_drExp k a h⟩
+theorem so3_dlAt (a : Vec ℝ 3) (h : Scalar.eps2 < sqNorm a) : DlAt (SO3.model : LieModel ℝ) a :=
+  so3_dlExp_eq_Ad_drExp a h
+
+/-- … and the commutative groups / vectors / scalars everywhere (`J = Ad = I`). -/
+theorem comm_invAt_dlAt :
+    (∀ a, InvAt (SO2.model : LieModel ℝ) a ∧ DlAt (SO2.model : LieModel ℝ) a) ∧
+    (∀ a, InvAt (C1.model : LieModel ℝ) a ∧ DlAt (C1.model : LieModel ℝ) a) ∧
+    (∀ (n : Nat) a, InvAt (Tn.model n : LieModel ℝ) a ∧ DlAt (Tn.model n : LieModel ℝ) a) :=
+  ⟨fun a => ⟨C04Bundle.invAt_of_ident _ a rfl rfl, C04Bundle.dlAt_of_ident _ a (fun _ => rfl) (fun _ => rfl)⟩,
+   fun a => ⟨C04Bundle.invAt_of_ident _ a rfl rfl, C04Bundle.dlAt_of_ident _ a (fun _ => rfl) (fun _ => rfl)⟩,
+   fun _ a => ⟨C04Bundle.invAt_of_ident _ a rfl rfl, C04Bundle.dlAt_of_ident _ a (fun _ => rfl) (fun _ => rfl)⟩⟩
+
+/-- non-vacuity: the nested bundle `B[SO3, B[T2, SO3]]` at `a = (1,0,0 | 5,6 | 1,0,0)` satisfies
+    the hypothesis of `bundle_drExp_mul_drExpinv`. -/
+example : AllParts InvAt
+    [(SO3.model : LieModel ℝ), Bundle.bundle [(Tn.model 2 : LieModel ℝ), (SO3.model : LieModel ℝ)]]
+    (vcat (mk3 (1:ℝ) 0 0) (vcat (vcat (mk2 (5:ℝ) 6) (vcat (mk3 (1:ℝ) 0 0) (vzero 0))) (vzero 0))) := by
+  refine ⟨?_, ?_, trivial⟩
+  · erw [C06.fst_vcat]; exact so3_invAt _ so3Closed_e1
+  · erw [C06.snd_vcat, C06.fst_vcat]
+    refine C04Bundle.invAt_bundle _ _ ⟨?_, ?_, trivial⟩
+    · erw [C06.fst_vcat]; exact (comm_invAt_dlAt.2.2 2 _).1
+    · erw [C06.snd_vcat, C06.fst_vcat]; exact so3_invAt _ so3Closed_e1
 
 /-! ### `dr_action` -/
 
